@@ -128,7 +128,9 @@ def plain_item(item):
 
 POSITIONS = ('stream.title', 'mps.title', 'stream.marlin_la_url', 'stream.playready_la_url',
              'q:clearkey__la_url', 'q:marlin__la_url', 'q:playready__la_url', 'q:time_value', 'q:ntp_servers',
-             'q:start', 'q:unknown', 'q:acodec', 'q:ping__value', 'q:scte35__value', 'host')
+             'q:start', 'q:unknown', 'q:acodec', 'q:ping__value', 'q:scte35__value', 'host',
+             # the older spellings of the licence URL overrides, read straight from the query by the DRM context
+             'q:clearkey_la_url', 'q:marlin_la_url', 'q:playready_la_url')
 
 
 def set_db(w, position, value):
@@ -150,7 +152,7 @@ def request_for(position, template, mode, value):
     headers = None
     mps = False
     if position in ('stream.marlin_la_url', 'stream.playready_la_url', 'q:clearkey__la_url', 'q:marlin__la_url',
-                    'q:playready__la_url'):
+                    'q:playready__la_url', 'q:clearkey_la_url', 'q:marlin_la_url', 'q:playready_la_url'):
         q['drm'] = 'all'
     if position == 'mps.title':
         mps = True
